@@ -47,6 +47,8 @@ def parse_kind(kind, text, opts=None):
     from doctrans import parse
 
     if kind in DOC_KINDS:
+        if opts and "pedd" in opts:
+            return parse.docstring(text, emit_default_doc=opts["pedd"])
         return parse.docstring(text)
     node = ast.parse(text).body[0]
     if kind == "class":
@@ -135,7 +137,8 @@ def compare(base, atoms, ret, case, inp_ir, out_ir, policy):
                           fail="typ", got=otyp))
         sites.append(site(rm.prose_ok(doc, odoc), dict(f, field="doc"), fail="doc", got=odoc))
         if policy.get("check_default", True):
-            ok = rm.default_ok(default, odef, policy.get("absent_default", ("absent",)), typ)
+            ok = rm.default_ok(default, odef, policy.get("absent_default", ("absent",)),
+                               typ if typ is not None else policy.get("zero_typ_fallback"))
             if is_kw and not ok:
                 ok = odef in (rm.ABSENT, ("none",))
             sites.append(site(ok, dict(f, field="default"), fail="default", got=list(odef) if odef != rm.ABSENT else odef))
@@ -144,7 +147,9 @@ def compare(base, atoms, ret, case, inp_ir, out_ir, policy):
     if ret is not None:
         rf.update(al.atom_facts((ret[0], ret[2], ret[1])))
     rin, rout = pin["ret"], pout["ret"]
-    if rin is None:
+    if policy.get("ret_only_with_default") and (rin is None or rin[2] == rm.ABSENT):
+        pass  # this kind only promises to carry a return entry that has a default
+    elif rin is None:
         sites.append(site(rout is None, dict(rf, field="ret.present"), fail="return_invented", got=rout))
     elif rout is None:
         sites.append(site(False, dict(rf, field="ret.present"), fail="return_lost"))
